@@ -19,6 +19,10 @@ Oracles (written from the property text, the samplers' docstrings and the pinned
 * weighted         E = size or len(dataset); each rank yields E // W valid indices; no index occurs twice over all
                    ranks of an epoch; an index of weight 0 is never drawn when at least E weights are non-zero.
 * all three        iteration (and construction) ends within a logical step budget.
+* through dataset  the labels fetched from the dataset with the indices exactly as emitted (ds.getitem_class(idx)), also for a
+                   SemiSampler over the library's SemiWrapper and through ModeWrapper("class") + DataLoader(sampler=...),
+                   follow the same labeled/unlabeled alternation (an index type that the dataset cannot use as a key -
+                   e.g. a 0-dim tensor against SemiWrapper's set of ints - shows up here; the type alone is only counted).
 * histories        (a) labels are changed on the SAME dataset object after a first round and NEW samplers are built: every
                    clause must hold w.r.t. the current labels; (b) two live iterators over one sampler object, consumed
                    alternately (zip(sampler, sampler) style, optionally with a head start): both must deliver exactly the
@@ -38,6 +42,9 @@ import torch
 
 from kappadata.datasets.kd_dataset import KDDataset
 from kappadata.samplers import ClassBalancedSampler, SemiSampler, WeightedSampler
+from kappadata.wrappers import ModeWrapper
+from kappadata.wrappers.sample_wrappers.semi_wrapper import SemiWrapper
+from torch.utils.data import DataLoader
 
 from . import core
 from .harness import Leaf, StepBudget, call_real, codes_of
@@ -65,12 +72,15 @@ ASSUMPTIONS = [
     "equality of consecutive epochs / agreement of the rank split with the world-size-1 draw is C12's clause and not judged here",
     "a sampler describes the labels its dataset has when the sampler is constructed (relabel histories build new samplers; an existing "
     "sampler is not expected to follow later label changes)",
+    "the type of an emitted index is not judged by itself (counted in indices_that_are_not_hash_keys_observed); it is judged through the dataset",
+    "SemiWrapper's own choice of unlabeled samples is read back through getitem_class(i) with python ints and taken as the dataset's labels",
     "an epoch's stream is a function of (seed, epoch, rank) only (all three samplers are seeded, default seed 0), so two concurrently "
     "consumed iterators of one sampler object must both equal the stand-alone stream",
 ]
 MONITORS = ["cb_epochs_checked", "cb_reuse_checked", "semi_epochs_checked", "semi_blocks_checked", "semi_rank_pairs_compared",
             "weighted_epochs_checked", "weighted_zero_weight_checked", "step_budget_runs", "indices_validated",
-            "relabel_histories_checked", "concurrent_iterators_checked"]
+            "relabel_histories_checked", "concurrent_iterators_checked", "semi_through_dataset_checked", "semi_over_semiwrapper_checked",
+            "semi_through_loader_checked"]
 
 _mods = [importlib.import_module(m) for m in (
     "kappadata.samplers.class_balanced_sampler", "kappadata.samplers.semi_sampler", "kappadata.samplers.weighted_sampler",
@@ -252,9 +262,16 @@ def _gen_semi(rng):
                 cur = trial
                 relabel.append([i, new])
         relabel = relabel or None
+    via = None
+    if rng.random() < 0.3 and nl + nu >= 2:
+        # the intended combination: SemiSampler over SemiWrapper (which samples are unlabeled is the wrapper's choice)
+        n = nl + nu
+        classes = [rng.randrange(ncls) for _ in range(n)]
+        via = {"percent": rng.randint(1, n - 1) / n + 1e-9, "wseed": rng.randrange(1000), "loader": rng.random() < 0.25}
+        relabel = None
     return {"kind": "semi", "classes": classes, "L": L, "U": U, "mode": mode,
             "W": W, "seed": rng.randrange(10 ** 6), "epochs": _epochs(rng),
-            "getall": getall, "relabel": relabel, "pair": _pair(rng), "defaults": rng.random() < 0.3}
+            "getall": getall, "relabel": relabel, "via": via, "pair": _pair(rng), "defaults": rng.random() < 0.3}
 
 
 def _gen_weighted(rng):
@@ -299,7 +316,7 @@ def gen_cases(run):
     n = run.n(9000, 400000)
     for i in range(n):
         spec = _GEN[i % 3](run.rng)
-        if _expected_len(spec) == 0:
+        if not spec.get("via") and _expected_len(spec) == 0:
             spec["_trivial"] = True
         yield spec
 
@@ -351,8 +368,8 @@ def _construct(run, spec, make, size_hint, what, refusal_class=None):
     return out
 
 
-def _epoch(run, spec, samplers, epoch, want_len, size_hint, what):
-    """-> list of per-rank index lists (python ints) or None"""
+def _epoch(run, spec, samplers, epoch, want_len, size_hint, what, raw=None):
+    """-> list of per-rank index lists (python ints) or None; `raw` collects the objects exactly as emitted"""
     kind = spec["kind"]
     streams = []
     for r, s in enumerate(samplers):
@@ -383,6 +400,16 @@ def _epoch(run, spec, samplers, epoch, want_len, size_hint, what):
             except TypeError:
                 run.violation(f"{kind}:invalid-index", f"{what} epoch {epoch} rank {r}: yielded {i!r} ({type(i).__name__}), not an index")
                 return None
+            try:
+                as_key = i in {ints[-1]}
+            except TypeError:
+                as_key = False
+            if not as_key:
+                # the statement does not fix the type of an emitted index: not a verdict by itself. What it costs is judged where it becomes
+                # observable - through the dataset the sampler was built for (semi:alternation-through-dataset / -through-loader)
+                run.count("indices_that_are_not_hash_keys_observed")
+        if raw is not None:
+            raw.append(got)
         n = _n(spec)
         bad = [i for i in ints if not 0 <= i < n]
         run.count("indices_validated", len(ints))
@@ -534,17 +561,41 @@ def _log_falling(n, k):
     return math.lgamma(n + 1) - math.lgamma(n - k + 1)
 
 
-def _run_semi(run, spec, ds=None):
+def _run_semi_entry(run, spec):
+    via = spec.get("via")
+    if not via:
+        return _run_semi(run, spec)
+    base = spec["classes"]
+    n = len(base)
+    inner = Leaf(n, classes=base, n_classes=max(base) + 1, getall_kind="list" if spec["getall"] == "none" else spec["getall"])
+    ok, ds = call_real(run, lambda: SemiWrapper(dataset=inner, semi_percent=via["percent"], seed=via["wseed"]), crash_key="semi:wrapper-crash",
+                       what=f"SemiWrapper(semi_percent={via['percent']}) over {n} samples")
+    if not ok:
+        return
+    ok, classes = call_real(run, lambda: [ds.getitem_class(i) for i in range(n)], crash_key="semi:wrapper-crash", what="SemiWrapper.getitem_class")
+    if not ok:
+        return
+    classes = [int(c) for c in classes]
+    if all(c == -1 for c in classes) or all(c != -1 for c in classes):
+        run.count("semi_over_semiwrapper_one_pool_empty")
+        return
+    run.count("semi_over_semiwrapper_checked")
+    return _run_semi(run, dict(spec, classes=classes), ds=ds, relabeled=False)
+
+
+def _run_semi(run, spec, ds=None, relabeled=True):
     classes, L, U, W, mode = spec["classes"], spec["L"], spec["U"], spec["W"], spec["mode"]
     lab = [i for i, c in enumerate(classes) if c != -1]
     unl = [i for i, c in enumerate(classes) if c == -1]
     labset = set(lab)
     E = _effective(spec)
-    phase = "" if ds is None else " built after relabeling the same dataset object"
+    phase = "" if ds is None or not relabeled else " built after relabeling the same dataset object"
     if ds is None:
         ds = _dataset(classes, max(1, max(classes) + 1), spec["getall"])
-    else:
+    elif relabeled:
         run.count("relabel_histories_checked")
+    if spec.get("via"):
+        phase = " over SemiWrapper"
     kw = {"num_labeled": L, "num_unlabeled": U, "seed": spec["seed"], "length_mode": mode}
     what = f"SemiSampler({kw}, {len(lab)} labeled / {len(unl)} unlabeled, labels as {spec['getall']}){phase}"
     want = E // W
@@ -557,7 +608,8 @@ def _run_semi(run, spec, ds=None):
     if samplers is None:
         return
     for e in spec["epochs"]:
-        streams = _epoch(run, spec, samplers, e, want, E + len(classes), what)
+        raw = []
+        streams = _epoch(run, spec, samplers, e, want, E + len(classes), what, raw=raw)
         if streams is None:
             return
         run.count("semi_epochs_checked")
@@ -581,6 +633,19 @@ def _run_semi(run, spec, ds=None):
                                       f"{what} epoch {e} rank {r}: the {'labeled' if is_lab else 'unlabeled'} sub-stream {_s(sub)} repeats {dup} inside "
                                       f"pass {b // len(pool)} over its pool of {len(pool)} (elements {b}..{b + len(block) - 1})")
                         return
+        # seen through the dataset the sampler was built for, with the indices exactly as emitted
+        for r, emitted in enumerate(raw):
+            ok, labs = call_real(run, lambda: [ds.getitem_class(i) for i in emitted], crash_key="semi:emitted-index-rejected-by-dataset",
+                                 what=f"{what} epoch {e} rank {r}: dataset.getitem_class(emitted index)")
+            if not ok:
+                return
+            run.count("semi_through_dataset_checked")
+            wrong = [k for k, c in enumerate(labs) if (c != -1) != (k % (L + U) < L)]
+            if wrong:
+                run.violation("semi:alternation-through-dataset",
+                              f"{what} epoch {e} rank {r}: labels fetched from the dataset with the emitted indices are {_s([int(c) for c in labs])}; positions "
+                              f"{_s(wrong)} break the {L} labeled / {U} unlabeled alternation (emitted: {_s(emitted)})")
+                return
         # different ranks, different streams -- only where a coincidence is practically impossible
         kl, ku = min(n_lab_pos, len(lab)), min(want - n_lab_pos, len(unl))
         evidence = max(_log_falling(len(lab), kl), _log_falling(len(unl), ku))
@@ -595,6 +660,23 @@ def _run_semi(run, spec, ds=None):
         if e == spec["epochs"][0] and want > 0:
             run.sample({"kind": "semi", "labeled": len(lab), "unlabeled": len(unl), "L": L, "U": U, "mode": mode, "W": W, "epoch": e,
                         "len": want, "rank0_classes": [classes[i] for i in streams[0][:24]]}, cap=4)
+    if spec.get("via") and spec["via"]["loader"] and want > 0:
+        r = W - 1
+
+        def load():
+            samplers[r].set_epoch(e)
+            dl = DataLoader(ModeWrapper(dataset=ds, mode="class"), sampler=samplers[r], batch_size=L + U)
+            return [int(x) for batch in dl for x in batch]
+        ok, labs = call_real(run, load, crash_key="semi:loader-crash", what=f"{what} epoch {e} rank {r}: DataLoader(ModeWrapper(ds, 'class'), sampler=sampler)")
+        if not ok:
+            return
+        run.count("semi_through_loader_checked")
+        wrong = [k for k, c in enumerate(labs) if (c != -1) != (k % (L + U) < L)]
+        if wrong or len(labs) != want:
+            run.violation("semi:alternation-through-loader",
+                          f"{what} epoch {e} rank {r}: DataLoader(ModeWrapper(ds, 'class'), sampler=sampler, batch_size={L + U}) delivers labels {_s(labs)} "
+                          f"({len(labs)} for len(sampler) = {want}); positions {_s(wrong)} break the {L} labeled / {U} unlabeled alternation")
+            return
     if not _pair_check(run, spec, samplers, e, streams, E + len(classes), what):
         return
     # note (never a verdict): rank a in epoch b vs rank b in epoch a
@@ -613,7 +695,7 @@ def _run_semi(run, spec, ds=None):
     if spec.get("relabel"):
         spec2 = _relabeled(spec)
         _set_labels(ds, spec2["classes"])
-        _run_semi(run, spec2, ds=ds)
+        _run_semi(run, spec2, ds=ds, relabeled=True)
 
 
 # ------------------------------------------------------------------------------------------------ weighted
@@ -664,7 +746,7 @@ def run_case(run, spec):
         run.count(f"skipped_{kind}_after_repeated_nontermination")
         return
     try:
-        {"cb": _run_cb, "semi": _run_semi, "weighted": _run_weighted}[kind](run, spec)
+        {"cb": _run_cb, "semi": _run_semi_entry, "weighted": _run_weighted}[kind](run, spec)
     except core.StepBudgetExceeded:
         _nonterminating[kind] += 1
         raise
